@@ -24,6 +24,9 @@ Obligations
   C08.<Client.method>.same_exception_class.<outcome>
   C08.<Client.method>.same_effect.<outcome>        same sequence of datastore writes under L and R
   C08.<Client.method>.promised.<what>.{local,remote}   exceptions/results promised by client_abc docstrings
+  C08.ServicePolicySupporter.<method>.same_exception_class.<outcome>   the supporter (the other holder of a service
+                                                   reference: servicer in-process, stub in the split-Pythia deployment) handles
+                                                   the local and the remote error of every service call alike
   C08.<Rpc>.returns_declared_response              every normally terminating path of every RPC handler (VizierServicer,
                                                    PythiaServicer) returns a non-None value (of the declared message class
                                                    where known): a stub cannot serialise anything else (INTERNAL)
@@ -52,6 +55,8 @@ K_STUDY, K_TRIAL = M_CLIENTS + ':Study', M_CLIENTS + ':Trial'
 K_VC, K_SERVICER = M_VC + ':VizierClient', M_VS + ':VizierServicer'
 K_LOCALRPC = M_GU + ':LocalRpcError'
 K_RNF = M_ABC + ':ResourceNotFoundError'
+M_SPS = SVC + 'service_policy_supporter'
+K_SUP = M_SPS + ':ServicePolicySupporter'
 RPC_ERROR = 'grpc.RpcError'
 REMOTE_ERROR = 'grpc._channel._InactiveRpcError'
 SC = 'grpc.StatusCode.'
@@ -291,6 +296,12 @@ class Analysis:
 
     # -- entry points
     def receiver(self, it, key, fr):
+        if key == K_SUP:
+            # the other holder of a Vizier service reference: the in-process servicer in two deployments, a stub of the
+            # Vizier server in the split-Pythia one (PythiaServicer.connect_to_vizier)
+            f = it.lookup_global(ModuleInfo.get(M_VC), 'create_vizier_servicer_or_stub')
+            service = it.call_v(f, [], {}, fr)
+            return it.construct(K_SUP, [UNKNOWN, service], {}, fr)
         vc = it.construct(K_VC, [UNKNOWN, UNKNOWN], {}, fr)
         if key == K_VC:
             return vc
@@ -776,6 +787,74 @@ PYTHIA_USERS = {'Suggest': 'Study.suggest', 'EarlyStop': 'Trial.check_early_stop
 
 
 
+def ob_supporter(chk, an, states_out):
+    """C08.ServicePolicySupporter.<method>.same_exception_class.<outcome>: the policy supporter holds the in-process servicer
+    in the local and single-server deployments and a gRPC stub in the split-Pythia one.  For every call on that reference
+    the supporter must treat the local error (NotFoundError/KeyError, LocalRpcError) and the remote one (RpcError with the
+    mapped or UNKNOWN code) alike: both escape, or both are handled the same way.  An error that escapes unhandled counts as
+    the same 'service error' under both holders (that its class differs is the servicer's finding, recorded at the client
+    methods); an `except KeyError` around a call whose remote failure is an RpcError is a divergence."""
+    ci = Hierarchy.classinfo(K_SUP)
+    if ci is None:
+        chk.error('C08.extract.ServicePolicySupporter', 'class not found')
+        return
+    # the Pythia servicer hands its own service reference to the supporter
+    try:
+        ps = ModuleInfo.get(M_PS)
+        src = ps.segment(ps.classes['PythiaServicer'].node)
+        if 'ServicePolicySupporter(' not in src or 'self._vizier_service' not in src:
+            chk.assume('PythiaServicer no longer builds a ServicePolicySupporter from self._vizier_service syntactically')
+    except (KeyError, FileNotFoundError):
+        pass
+
+    def snorm(p):
+        if p.outcome[0] == 'raise' and p.exc is not None and '<service>' in p.exc.attrs:
+            return ('raise', 'the error of the service call %s' % p.exc.attrs['<service>'].value, None)
+        return an.norm(p.outcome)
+    for m in ci.methods:
+        if m.startswith('_') or m.endswith('.setter'):
+            continue
+        mkey = (K_SUP, m)
+        name = 'ServicePolicySupporter.' + m
+        chk.function(M_SPS, name, role='holder of a service reference (in-process servicer or stub)')
+        try:
+            tags = an.tags_of(mkey)
+        except (excflow.Unsupported, excflow.PathLimit) as e:
+            chk.obligation('C08.%s.same_exception_class.ok' % name, name, 'paths', report.UNDECIDED, 0.0, detail='analysis gave up: %r' % (e,))
+            continue
+        usable_tags = [t for t in sorted(tags & DIRECTABLE) if t not in ENTRY_ONLY]
+        for st in [()] + [(t,) for t in usable_tags]:
+            t0 = time.time()
+            oname = 'C08.%s.same_exception_class.%s' % (name, state_name(st))
+            try:
+                L, R = an.paths(mkey, st, 'L'), an.paths(mkey, st, 'R')
+            except (excflow.Unsupported, excflow.PathLimit) as e:
+                chk.obligation(oname, name, 'paths', report.UNDECIDED, time.time() - t0, detail='analysis gave up: %r' % (e,))
+                continue
+            div, ex, n = set(), {}, 0
+            for lp in L:
+                for rp in R:
+                    if lp.compatible(rp):
+                        n += 1
+                        a, b = snorm(lp), snorm(rp)
+                        if a != b:
+                            sdesc = 'in-process servicer: %s | stub: %s' % (an.fmt(a), an.fmt(b))
+                            div.add(sdesc)
+                            ex.setdefault(sdesc, (lp, rp))
+            if n == 0:
+                chk.obligation(oname, name, 'paths', report.UNDECIDED, time.time() - t0, detail='no pair of compatible paths')
+            elif not div:
+                chk.obligation(oname, name, 'paths', report.PROVED, time.time() - t0,
+                               detail={'pairs': n, 'rpcs': sorted({r for p in L + R for r in p.rpcs}),
+                                       'in_process': sorted({an.fmt(snorm(p)) for p in L}),
+                                       'stub': sorted({an.fmt(snorm(p)) for p in R})})
+            else:
+                sig = sorted(div)
+                known_or_violated(chk, oname, name, sig, model='\n'.join(explain(ex, x) for x in sig),
+                                  case={'method': name, 'state': [NAMED_OTHER.get(t, t) for t in st], 'check': 'supporter'},
+                                  t=time.time() - t0)
+
+
 def read_promises(an):
     """Exceptions promised by the docstrings ('Raises:' sections) of client_abc interfaces and clients.py."""
     out = []
@@ -921,6 +1000,10 @@ def replay_cases_for(case, cid):
         out.append(dict(base, id=cid + '#succeeded', variant='succeeded'))
     for v in case.get('variants', ()):
         out.append(dict(base, id=cid + '#' + v, variant=v))
+    if case.get('check') == 'supporter':
+        # the end-to-end scenario: a GRID_SEARCH study (its policy asks the supporter for the ids 1..max), a trial
+        # deleted below the maximum, then another suggest
+        out.append({'id': cid + '#grid_after_delete', 'method': 'Study.suggest', 'state': [], 'variant': 'grid_after_delete'})
     return out
 
 
@@ -946,6 +1029,15 @@ def reproduces(an, case, results, signature=None):
         elif check == 'code':
             q = c['L' if case.get('deployment', 'L') == 'L' else 'R']['result']
             verdicts.append(not (q['kind'] == 'raise' and RPC_ERROR in q['mro'] and q.get('code') == case.get('want')))
+        elif check == 'supporter':
+            v = cls is not None
+            if c.get('case', {}).get('variant') == 'grid_after_delete' and usable(c, ('R', 'P')):
+                # end to end: the same client program against the single server and the split-Pythia deployment
+                _, _, pcls, peff = native_sig(an, c, 'R', 'P')
+                native[-1]['split_pythia'] = c['P'].get('result')
+                native[-1]['single_server_vs_split_pythia'] = pcls
+                v = pcls is not None
+            verdicts.append(v)
         elif check == 'response_pythia':
             if not usable(c, ('R', 'P')):
                 continue
@@ -968,6 +1060,8 @@ def how_to_replay(case):
         return None
     cmd = '/venv/bin/python /verif/replay/c08_grpc.py --case %s %s' % (case['method'], ' '.join(case['state']))
     vs = [c.get('variant') for c in replay_cases_for(case, 'x') if c.get('variant')]
+    if case.get('check') == 'supporter':
+        return cmd + '   # and: --case Study.suggest --variant grid_after_delete --deployments L,R,P'
     if case.get('check') == 'response_pythia':
         cmd += ' --deployments R,P'
     return cmd + (('   # also with --variant ' + ' / --variant '.join(vs)) if vs else '')
@@ -991,7 +1085,7 @@ def confirm_pending(chk, an, tier):
                     cases.append(c)
     res = None
     if cases:
-        deps = ['L', 'R'] + (['P'] if any((p['case'] or {}).get('check') == 'response_pythia' for p in PENDING) else [])
+        deps = ['L', 'R'] + (['P'] if any((p['case'] or {}).get('check') in ('response_pythia', 'supporter') for p in PENDING) else [])
         res, err = run_replay(cases, deps, 'violations')
         if err:
             chk.note('replay of violations unavailable: %s' % err)
@@ -1134,6 +1228,9 @@ INVENTORY = [
     'C08.Trial.complete.same_exception_class.immutable_study', 'C08.Trial.delete.same_effect.immutable_study',
     'C08.StopTrial.returns_declared_response', 'C08.GetTrial.returns_declared_response',
     'C08.SuggestTrials.returns_declared_response', 'C08.Suggest.returns_declared_response',
+    'C08.ServicePolicySupporter.GetTrials.same_exception_class.ok',
+    'C08.ServicePolicySupporter.GetTrials.same_exception_class.missing_study',
+    'C08.ServicePolicySupporter.GetStudyConfig.same_exception_class.missing_study',
 ]
 
 
@@ -1184,6 +1281,7 @@ def main(tier):
                 chk.function(M_VS, 'VizierServicer.' + rpc, role='servicer method interpreted under both contracts')
         chk.function(M_VS, 'VizierServicer._study_is_immutable', role='inlined')
         ob_returns_declared_response(chk, an, mkeys)
+        ob_supporter(chk, an, states_out)
         try:
             ob_promised(chk, an)
         except (excflow.Unsupported, excflow.PathLimit) as e:
